@@ -897,6 +897,61 @@ impl Default for Generator {
     }
 }
 
+/// Verification hook (only with `--cfg a4lg_ffuzzy_verif`; not a part of the API).
+#[cfg(a4lg_ffuzzy_verif)]
+impl Generator {
+    /// Creates a [`Generator`] in the state it has after consuming `size` zero bytes.
+    ///
+    /// Zero bytes keep the rolling hash at zero and never end a piece, so only the
+    /// input size, the rolling window index and the FNV state of the first block
+    /// hash context differ from [`Generator::new()`].  64 is a common multiple of
+    /// the periods of a zero byte step in both FNV representations.
+    #[doc(hidden)]
+    pub fn verif_new_with_prefix_zeroes(size: u64) -> Self {
+        let mut generator = Self::new();
+        generator.0.input_size = size;
+        for _ in 0..(size % RollingHash::WINDOW_SIZE as u64) {
+            generator.0.roll_hash.update_by_byte(0);
+        }
+        for _ in 0..(size % 64) {
+            generator.0.bh_context[0].h_full.update_by_byte(0);
+            generator.0.bh_context[0].h_half.update_by_byte(0);
+        }
+        generator
+    }
+
+    /// Brings the generator into the state it has after feeding `size` more zero
+    /// bytes (equivalent to `update(&[0; size])` but in constant time).
+    ///
+    /// The first [`RollingHash::WINDOW_SIZE`] zero bytes are really fed (they may
+    /// still end pieces).  After them the rolling hash stays zero, no piece can end
+    /// and only the input size, the rolling window index and the FNV states of the
+    /// active block hash contexts (and of the "last" hash) move, all with a period
+    /// dividing 64 (FNV) and the window size (index).
+    #[doc(hidden)]
+    pub fn verif_feed_zeroes(&mut self, size: u64) -> &mut Self {
+        let head = u64::min(size, RollingHash::WINDOW_SIZE as u64);
+        for _ in 0..head {
+            self.update_by_byte(0);
+        }
+        let rest = size - head;
+        self.0.input_size = self.0.input_size.saturating_add(rest);
+        for _ in 0..(rest % RollingHash::WINDOW_SIZE as u64) {
+            self.0.roll_hash.update_by_byte(0);
+        }
+        for _ in 0..(rest % 64) {
+            for bh in &mut self.0.bh_context[self.0.bhidx_start..self.0.bhidx_end] {
+                bh.h_full.update_by_byte(0);
+                bh.h_half.update_by_byte(0);
+            }
+            if self.0.is_last {
+                self.0.h_last.update_by_byte(0);
+            }
+        }
+        self
+    }
+}
+
 impl AddAssign<&[u8]> for Generator {
     /// Updates the hash value by processing a slice of [`u8`].
     #[inline(always)]
